@@ -4,6 +4,7 @@ import Bashlex.Spec.PyVal
 import Bashlex.Spec.Tree
 import Bashlex.Spec.Rel
 import Bashlex.Spec.Quote
+import Bashlex.Spec.Render
 import Bashlex.Model.Visitor
 
 namespace Bashlex
@@ -261,6 +262,14 @@ def specHandle (cmd opts inp : String) (extra : List String) : String :=
     | .ok parts =>
       " ".intercalate ((opts.splitOn ",").map fun p =>
         p ++ ":" ++ ",".intercalate (dedup (evalProp p src parts (cmd == "specdbg"))))
+  | "c02", [] =>
+    -- c02 <-> <choices joined by '.'>: rendered text (hex), expected outcome, tags, oracle self-check
+    let choices := (inp.splitOn ".").filterMap String.toNat?
+    let (text, nodes, tags) := roundTripCase choices
+    let self := dedup ((nodes.map (spansWF text.length)).flatten ++ (nodes.map schemaOK).flatten ++
+      (nodes.map (textOK text)).flatten ++ coverOK text nodes ++ quoteOKL text "" nodes)
+    ".".intercalate (text.map fun c => hexOf c.toNat) ++ "\t" ++ "OK " ++ showNodes none nodes ++ "\t" ++
+      "".intercalate tags ++ "\t" ++ ",".intercalate self
   | "visit", [line] =>
     -- visit <descriptor of the node to prune at, or -> <src> <outcome>: the model's callback trace
     match outcomeNodes line with
